@@ -12,7 +12,7 @@ export SIM_OUT_DIR=/tmp/trial-out; mkdir -p /tmp/trial-out
 if [ -n "$(git -C /repo status --porcelain --untracked-files=no)" ]; then echo "refusing: /repo has local modifications"; exit 2; fi
 if ! git -C /repo apply --check "$patch" 2>/dev/null; then if git -C /repo apply --3way "$patch" 2>/dev/null; then git -C /repo reset -q; threeway=1; else git -C /repo reset -q --hard HEAD; echo "patch does not apply: $patch"; exit 2; fi; fi
 [ "${threeway:-0}" = 1 ] || git -C /repo apply "$patch"
-trap 'git -C /repo checkout -- . ' EXIT
+trap 'git -C /repo checkout -- . ; (cd /verif/sim && CARGO_NET_OFFLINE=true cargo build --release --offline >/dev/null 2>&1)' EXIT   # restore /repo AND the clean binary
 for p in "${props[@]}"; do
   out=$(timeout 900 ./check "$p" quick 2>&1); rc=$?
   nviol=$(echo "$out" | grep -c '^VIOLATION')
